@@ -23,7 +23,8 @@ META = {
         "not decided."
         ' Also: swapped / dropped option forwarding in the PLSSDesc wrappers, out-parameter dicts are told from None by identity, TRS equality / hashing (shared with C12), parallel clause purity of TRS.is_error.'
         " Round 7: no silent de-duplication on insert; unverified bulk copy only for the container's own class (any spelling of the extend); is_error / is_undef tables; TRS.__eq__ true only for a TRS."
-        ' Round 8: __setitem__ stores a verified iterable only under a slice; unpack_group goes into nested dicts; a first-element type test does not decide a bulk extend.'),
+        ' Round 8: __setitem__ stores a verified iterable only under a slice; unpack_group goes into nested dicts; a first-element type test does not decide a bulk extend.'
+        ' Round 10: a position (loop index) is never tested against a collection that only receives elements / keys, nor the reverse.'),
     'families': ['SINK', 'EXC', 'TBL', 'FORWARD', 'DEADPARAM', 'SIB-DEFAULTS'],
 }
 
@@ -44,6 +45,7 @@ def check(ctx):
     ctx.attempt(_setitem_kinds)
     ctx.attempt(_unpack_group_recurses)
     ctx.attempt(common.first_element_speaks_for_all, [f for f in ctx.repo.funcs.values() if f.module.name.endswith('containers.containers')])
+    ctx.attempt(common.membership_kind_mismatch, [f for f in ctx.repo.funcs.values() if f.module.name.endswith('containers.containers')])
     ctx.attempt(common.no_dedup_on_insert, [f for f in ctx.repo.funcs.values() if f.module.name.endswith('containers.containers')])
     from .c12 import error_undef_tables      # filter_errors() relies on is_error / is_undef
     ctx.attempt(error_undef_tables)
